@@ -12,6 +12,8 @@ open Cotengra
     `size = 1` (core.py:1625) -/
 def WF (sl : List SliceInfo) : Prop := ∀ s ∈ sl, s.project ≠ none → s.size = 1
 
+instance (sl : List SliceInfo) : Decidable (WF sl) := by unfold WF; infer_instance
+
 theorem WF.tail {s : SliceInfo} {sl : List SliceInfo} (h : WF (s :: sl)) : WF sl :=
   fun x hx => h x (List.mem_cons_of_mem _ hx)
 
@@ -145,6 +147,14 @@ def ValidKey : List SliceInfo → List (Ix × Nat) → Prop
   | [], [] => True
   | s :: sl, kv :: k => kv.1 = s.ind ∧ kv.2 ∈ s.slicedRange ∧ ValidKey sl k
   | _, _ => False
+
+instance : (sl : List SliceInfo) → (k : List (Ix × Nat)) → Decidable (ValidKey sl k)
+  | [], [] => isTrue trivial
+  | [], _ :: _ => isFalse (by simp [ValidKey])
+  | _ :: _, [] => isFalse (by simp [ValidKey])
+  | s :: sl, kv :: k =>
+    have := instDecidableValidKey sl k
+    by unfold ValidKey; infer_instance
 
 theorem mem_allKeys (sl : List SliceInfo) (k : List (Ix × Nat)) :
     k ∈ allKeys sl ↔ ValidKey sl k := by
